@@ -256,15 +256,30 @@ type Loc struct {
 	comp  string
 	rsort string     // sort of the root value
 	rtype types.Type // Go type of root value
-	path  []int      // struct field indexes below the root
+	path  []pathEl   // struct fields / array indexes below the root
 	typ   types.Type // Go type of the designated value
+}
+
+// pathEl is one step below the root of a location: a struct field or an array element.
+type pathEl struct {
+	field int
+	idx   string // non-empty: array index term
 }
 
 func (l *Loc) sub(i int) *Loc {
 	u := types.Unalias(l.typ).Underlying().(*types.Struct)
 	n := *l
-	n.path = append(append([]int{}, l.path...), i)
+	n.path = append(append([]pathEl{}, l.path...), pathEl{field: i})
 	n.typ = u.Field(i).Type()
+	return &n
+}
+
+// subIdx: element idx of an array-typed location.
+func (l *Loc) subIdx(idx string) *Loc {
+	a := types.Unalias(l.typ).Underlying().(*types.Array)
+	n := *l
+	n.path = append(append([]pathEl{}, l.path...), pathEl{idx: idx})
+	n.typ = a.Elem()
 	return &n
 }
 
@@ -298,24 +313,34 @@ func fieldAcc(st types.Type, i int) string {
 func (g *Gen) read(s *State, l *Loc) string {
 	v := g.locRootRead(s, l)
 	t := l.rtype
-	for _, i := range l.path {
-		v = fmt.Sprintf("(%s %s)", fieldAcc(t, i), v)
-		t = types.Unalias(t).Underlying().(*types.Struct).Field(i).Type()
+	for _, pe := range l.path {
+		if pe.idx != "" {
+			v = fmt.Sprintf("(select %s %s)", v, pe.idx)
+			t = types.Unalias(t).Underlying().(*types.Array).Elem()
+			continue
+		}
+		v = fmt.Sprintf("(%s %s)", fieldAcc(t, pe.field), v)
+		t = types.Unalias(t).Underlying().(*types.Struct).Field(pe.field).Type()
 	}
 	return v
 }
 
 // updStruct builds a struct value equal to sv (type st) with path updated to nv.
-func (g *Gen) updStruct(st types.Type, sv string, path []int, nv string) string {
+func (g *Gen) updStruct(st types.Type, sv string, path []pathEl, nv string) string {
 	if len(path) == 0 {
 		return nv
+	}
+	if path[0].idx != "" {
+		a := types.Unalias(st).Underlying().(*types.Array)
+		cur := fmt.Sprintf("(select %s %s)", sv, path[0].idx)
+		return fmt.Sprintf("(store %s %s %s)", sv, path[0].idx, g.updStruct(a.Elem(), cur, path[1:], nv))
 	}
 	g.d.sortOf(st)
 	u := types.Unalias(st).Underlying().(*types.Struct)
 	var fs []string
 	for i := 0; i < u.NumFields(); i++ {
 		cur := fmt.Sprintf("(%s %s)", fieldAcc(st, i), sv)
-		if i == path[0] {
+		if i == path[0].field {
 			cur = g.updStruct(u.Field(i).Type(), cur, path[1:], nv)
 		}
 		fs = append(fs, cur)
